@@ -472,7 +472,7 @@ func c11RuleO(w *World, r *Report, subjects []*ssa.Function, ctxs map[string]*Ct
 					if why == "" {
 						continue
 					}
-					if w.guardedByPath(blk, path, ctxs) {
+					if w.guardedByPath(blk, path, ctxs) || w.guardedByPathAtCallers(blk.Parent(), call, path, ctxs, 0) {
 						continue
 					}
 					bad = append(bad, why+" at "+w.instrPos(ref))
@@ -512,6 +512,76 @@ func (w *World) guardedByPath(blk *ssa.BasicBlock, path string, ctxs map[string]
 		}
 	}
 	return false
+}
+
+// accessRoot: the value an accessor chain starts from.
+func (w *World) accessRoot(v ssa.Value, ctxs map[string]*CtxInfo, depth int) ssa.Value {
+	if depth > 12 {
+		return v
+	}
+	switch x := v.(type) {
+	case *ssa.MakeInterface:
+		return w.accessRoot(x.X, ctxs, depth+1)
+	case *ssa.ChangeInterface:
+		return w.accessRoot(x.X, ctxs, depth+1)
+	case *ssa.ChangeType:
+		return w.accessRoot(x.X, ctxs, depth+1)
+	case *ssa.TypeAssert:
+		return w.accessRoot(x.X, ctxs, depth+1)
+	case *ssa.Extract:
+		if ta, ok := x.Tuple.(*ssa.TypeAssert); ok && x.Index == 0 {
+			return w.accessRoot(ta.X, ctxs, depth+1)
+		}
+	case *ssa.Call:
+		if recv, ai, ok := w.accessorOf(x, ctxs); ok && ai.Known && !strings.HasSuffix(ai.What, "*") {
+			return w.accessRoot(recv, ctxs, depth+1)
+		}
+	}
+	return v
+}
+
+// guardedByPathAtCallers: the access path starts at a parameter of fn, and every call site of fn in the program text is dominated
+// by a non-nil test of the same path taken from the argument (the caller checked the optional child before delegating).
+func (w *World) guardedByPathAtCallers(fn *ssa.Function, v ssa.Value, path string, ctxs map[string]*CtxInfo, depth int) bool {
+	if depth > 2 {
+		return false
+	}
+	root, ok := w.accessRoot(v, ctxs, 0).(*ssa.Parameter)
+	if !ok {
+		return false
+	}
+	prefix := fmt.Sprintf("%p", ssa.Value(root))
+	if !strings.HasPrefix(path, prefix) {
+		return false
+	}
+	suffix := strings.TrimPrefix(path, prefix)
+	idx := -1
+	for i, q := range fn.Params {
+		if q == root {
+			idx = i
+		}
+	}
+	n := w.CallGraph().Nodes[fn]
+	if idx < 0 || n == nil {
+		return false
+	}
+	real := 0
+	for _, e := range n.In {
+		if e.Caller.Func.Synthetic != "" {
+			continue
+		}
+		real++
+		if e.Site == nil || e.Site.Common().IsInvoke() || idx >= len(e.Site.Common().Args) {
+			return false
+		}
+		arg := e.Site.Common().Args[idx]
+		p2 := w.accessPath(arg, ctxs, 0) + suffix
+		if w.guardedByPath(e.Site.Block(), p2, ctxs) {
+			continue
+		}
+		return false
+	}
+	return real > 0
 }
 
 // ---------- Rule G ----------
